@@ -32,6 +32,9 @@ def fscript(rng, n, i, tryj, panic=0.03, perr=0.3, maxlen=4):
             st.append(fires(rng, n) + "P")
         elif r < 1.0 - panic:
             st.append(fires(rng, n) + (f"F{500+i}" if (tryj and rng.random() < perr) else f"R{100+i}"))
+            # what the child WOULD answer if it were (wrongly) polled again after completion: never consumed by a correct combinator
+            if rng.random() < 0.3:
+                st.append(rng.choice([f"R{900+i}", f"F{950+i}" if tryj else f"R{900+i}", "P"]))
             break
         else:
             st.append(fires(rng, n) + "X")
@@ -51,6 +54,11 @@ def sscript(rng, n, i, panic=0.03, maxlen=6, pitem=0.45, ppend=0.4):
             k += 1
         elif r < 1.0 - panic:
             st.append(fires(rng, n) + "E")
+            # a fused stream answers None again, an unfused one may do anything, if it is (wrongly) polled after its end
+            if rng.random() < 0.35:
+                st.append(rng.choice(["E", "E", f"I{100*(i+1)+90}", "P"]))
+                if rng.random() < 0.5:
+                    st.append("E")
             break
         else:
             st.append(fires(rng, n) + "X")
